@@ -49,12 +49,21 @@ var c16Types = map[string]reflect.Type{
 	// channels the statement's pool does not decide: element types that merely implement error, send-only direction, named channel types
 	"chanMyErr": reflect.TypeOf((chan *MyErr)(nil)), "chanErrno": reflect.TypeOf((chan Errno)(nil)), "wchanerr": reflect.TypeOf((chan<- error)(nil)),
 	"MyChan": reflect.TypeOf(MyChan(nil)), "MyRChan": reflect.TypeOf(MyRChan(nil)),
+	"Level": reflect.TypeOf(Level(0)), "Colour": reflect.TypeOf(Colour("")), "Flag": reflect.TypeOf(Flag(false)), "Duration": reflect.TypeOf(time.Duration(0)),
 }
 
 type (
 	MyChan  chan error
 	MyRChan <-chan error
+	// value types of the bridged kinds that also know how to print themselves: they are numbers, booleans and strings all the same
+	Level  int
+	Colour string
+	Flag   bool
 )
+
+func (l Level) String() string  { return [...]string{"low", "mid", "high"}[int(l)%3] }
+func (c Colour) String() string { return "color(" + string(c) + ")" }
+func (f Flag) String() string   { return map[bool]string{true: "set", false: "clear"}[bool(f)] }
 
 func isLooseChan(name string) bool {
 	return name == "chanMyErr" || name == "chanErrno" || name == "wchanerr" || name == "MyChan" || name == "MyRChan"
@@ -62,7 +71,7 @@ func isLooseChan(name string) bool {
 
 var (
 	c16Predeclared = []string{"int", "int8", "int16", "int32", "int64", "float32", "float64", "bool", "string"}
-	c16Named       = []string{"MyInt", "MyInt8", "MyFloat", "MyStr", "MyBool"}
+	c16Named       = []string{"MyInt", "MyInt8", "MyFloat", "MyStr", "MyBool", "Level", "Colour", "Flag", "Duration"}
 	c16DontCare    = []string{"uint", "uint8", "iface"}
 	c16BadParam    = []string{"struct", "slice", "ptr", "func", "chanerr", "chanint", "error"}
 )
@@ -194,7 +203,8 @@ func (c c16Case) registration() string {
 }
 
 var cannedValues = map[string]any{"int": 7, "int8": int8(-8), "int16": int16(16), "int32": int32(32), "int64": int64(64), "uint": uint(3), "uint8": uint8(4), "float32": float32(2.5), "float64": 2.25,
-	"bool": true, "string": "res", "MyInt": MyInt(9), "MyInt8": MyInt8(-9), "MyFloat": MyFloat(0.5), "MyStr": MyStr("named"), "MyBool": MyBool(true)}
+	"bool": true, "string": "res", "MyInt": MyInt(9), "MyInt8": MyInt8(-9), "MyFloat": MyFloat(0.5), "MyStr": MyStr("named"), "MyBool": MyBool(true),
+	"Level": Level(2), "Colour": Colour("red"), "Flag": Flag(true), "Duration": 1500 * time.Millisecond}
 
 func cannedMval(name string) mval {
 	v := reflect.ValueOf(cannedValues[name])
@@ -457,7 +467,29 @@ func runC16(c c16Case) Verdict {
 			return Verdict{NonTrivial: true, Classes: append(cls, "refused", "earlier-handler-kept")}
 		}
 		if builtin {
-			return Verdict{Classes: append(cls, "refused", "built-in-name")}
+			// the refused registration changed nothing: the built-in is still there
+			good := map[string]string{"round": "round(2.4)", "floor": "floor(2.4)", "ceil": "ceil(2.4)", "inc": "inc(2.4)", "dec": "dec(2.4)", "decimal": "decimal(2.5)", "integer": "integer(2.5)",
+				"round_places": "round_places(2.44, 1)", "string": "string(1)", "number": "number(\"1\")", "bool": "bool(\"true\")", "dice": "dice(6)", "random": "random()", "random_range": "random_range(1, 2)",
+				"visited": "visited(\"Start\")", "visited_count": "visited_count(\"Start\")"}[name]
+			src2 := "title: Start\n---\n{" + good + "}\n===\n"
+			if c.Kind == "command" {
+				src2 = "title: Start\n---\n<<wait 0>>\nwaited\n===\n"
+			}
+			dr2, err := ysgo.NewDialogueRunner(nil, "abc", strings.NewReader(src2))
+			if err != nil {
+				return failf("script does not load: %v", err)
+			}
+			if c.Kind == "command" {
+				_ = dr2.ConvertAndAddCommand(name, value)
+			} else {
+				_ = dr2.ConvertAndAddFunction(name, value)
+			}
+			h2 := &host{dr: dr2, storer: newRecStorer()}
+			h2.drive(nil, nil, 3, false)
+			if len(h2.trace) == 0 || h2.trace[0].K != "line" {
+				return failf("registering %s under the name of the built-in %q was refused (%v); afterwards the built-in itself no longer works: %s", sig, name, regErr, showTrace(h2.trace))
+			}
+			return Verdict{NonTrivial: true, Classes: append(cls, "refused", "built-in-kept")}
 		}
 		if ev.K != "err" {
 			return failf("registering %s was refused (%v); calling the name afterwards as %s must be an error, got %s (host function calls: %v)", sig, regErr, stmt, ev, probe.calls)
@@ -640,7 +672,8 @@ func genC16(t *rapid.T) c16Case {
 	c.Variadic = n > 0 && rapid.IntRange(0, 3).Draw(t, "variadic") == 0
 	if kind == "function" {
 		c.Out = rapid.SampledFrom([][]string{{}, {"int"}, {"float64"}, {"string"}, {"bool"}, {"error"}, {"int", "error"}, {"string", "error"}, {"MyInt"}, {"MyStr", "error"}, {"MyFloat"}, {"MyBool"},
-			{"int8"}, {"float32", "error"}, {"MyErrPtr"}, {"int", "MyErrPtr"}, {"Errno"}, {"string", "Errno"}, {"ErrStruct"}, {"int", "ErrStruct"}, {"struct"}, {"slice"}, {"int", "int"}, {"error", "int"}, {"int", "string", "error"}, {"chanerr"}, {"uint"}, {"iface"}, {"ptr", "error"}}).Draw(t, "out")
+			{"int8"}, {"float32", "error"}, {"MyErrPtr"}, {"int", "MyErrPtr"}, {"Errno"}, {"string", "Errno"}, {"ErrStruct"}, {"int", "ErrStruct"}, {"struct"}, {"slice"}, {"int", "int"}, {"error", "int"}, {"int", "string", "error"}, {"chanerr"}, {"uint"}, {"iface"}, {"ptr", "error"},
+			{"Level"}, {"Colour"}, {"Flag"}, {"Duration"}, {"Level", "error"}, {"Colour", "error"}}).Draw(t, "out")
 	} else {
 		c.Out = rapid.SampledFrom([][]string{{}, {}, {"error"}, {"error"}, {"chanerr"}, {"rchanerr"}, {"MyErrPtr"}, {"Errno"}, {"ErrStruct"}, {"int"}, {"string"}, {"struct"}, {"chanint"}, {"error", "error"}, {"int", "error"}, {"ptr"}, {"func"},
 			{"chanMyErr"}, {"chanErrno"}, {"wchanerr"}, {"MyChan"}, {"MyRChan"}}).Draw(t, "out")
